@@ -1329,12 +1329,28 @@ class Converter:
                 )
             onnx_cond_var = current_scope[cond_while].value
 
-        cond_out = self._emit1(
-            [self._generate_unique_name("cond_out")],
-            values.Op(self.default_opset, operator_name),
-            [condition_name or onnx_cond_var],
-            [],
-        )
+        if cond_while is not None and condition_name is not None:
+            # while-loop ending with `if b: break`: continue iff the loop condition
+            # holds and the break condition does not.
+            not_break = self._emit1(
+                [self._generate_unique_name("not_break")],
+                values.Op(self.default_opset, "Not"),
+                [condition_name],
+                [],
+            )
+            cond_out = self._emit1(
+                [self._generate_unique_name("cond_out")],
+                values.Op(self.default_opset, "And"),
+                [onnx_cond_var, not_break],
+                [],
+            )
+        else:
+            cond_out = self._emit1(
+                [self._generate_unique_name("cond_out")],
+                values.Op(self.default_opset, operator_name),
+                [condition_name or onnx_cond_var],
+                [],
+            )
         self._current_fn.outputs.append(cond_out)
 
         for pv in loop_state_vars:
